@@ -67,6 +67,8 @@ def install_common(eng):
 
     def s_deref(eng, st, callee, args, dty):
         r = args[0]
+        if re.match(r"^<(std::path::)?(PathBuf|String|OsString|std::ffi::OsString|Vec<.*>|Cow<.*>) as Deref", callee):
+            return Outcome(r)   # owned buffer -> borrowed view: same abstract value
         v = deref_ref(eng, st, r)
         if isinstance(v, OpaqueV):
             inner = v.attrs.get("inner")
